@@ -3,7 +3,7 @@ import json
 
 from .. import enginecheck
 
-QUICK = ['a,X,n', 'a,a,X,n,n', 'a,n,X,n', 'A2,X,b,c']
+QUICK = ['a,a:u,X,n,n:u', 'a,X,n', 'a,a,X,n,n', 'a,n,X,n', 'A2,X,b,c']
 THOROUGH = ['a,a,n,X,b,c', 'a,a,n,X,n,X,n', 'a,a,a,X,b,b', 'a,n,a,X,n,n', 'a,a:u,X,n,n:u', 'a,X,a,X,B,c', 'a,a,b,X,c,a,n', 'a,a,R,n,n,c', 'A3,n,X,b,c']
 DIFF = [
     dict(skel='a,a,a,X,B,c', sizes=[100, 15 * 2 ** 20, 100], budgets=[]),
